@@ -595,7 +595,27 @@ func (sc *specCtx) bin(n *SBin) SV {
 // heapFact: a pointer/slice/map value read from the heap by a contract expression refers to
 // allocated storage (Go memory safety) -- the same fact the encoder assumes when code loads it.
 func (sc *specCtx) heapFact(t string, ty types.Type) {
-	if sc.guard == "" || sc.inOld || strings.Contains(t, "q_") {
+	if sc.guard == "" || sc.inOld {
+		return
+	}
+	if strings.Contains(t, "q_") {
+		// a pointer read under a quantifier: state the fact for the whole array version it is read from
+		// (every pointer stored in the heap refers to allocated storage and not into a backing array)
+		if _, isPtr := ty.Underlying().(*types.Pointer); isPtr && strings.HasPrefix(t, "(select ") {
+			arr := firstSexpr(t[8:])
+			if !strings.Contains(arr, "q_") {
+				alloc := sc.e.ghostGet(sc.st, "$alloc")
+				key := "hfq|" + sc.guard + "|" + arr + "|" + alloc
+				if !sc.e.tinvSeen[key] {
+					sc.e.tinvSeen[key] = true
+					extra := ""
+					if sc.e.m.noElemPtrs {
+						extra = fmt.Sprintf(" (not (inelem (select %s a)))", arr)
+					}
+					sc.e.assume(sc.guard, fmt.Sprintf("(forall ((a Addr)) (! (and (< (rootid (select %s a)) %s)%s) :pattern ((select %s a))))", arr, alloc, extra, arr))
+				}
+			}
+		}
 		return
 	}
 	switch ty.Underlying().(type) {
